@@ -447,6 +447,25 @@ fn run(ctx: &mut Ctx) {
                 }
             }
             ctx.flush_failures();
+            // every short identifier that is plain for the pair, as symbol and as keyword
+            {
+                let q = qs[0];
+                let rules = ident_rules(&p, &q);
+                let mut kw_rules = rules;
+                kw_rules.no_nil = false;
+                kw_rules.no_t = false;
+                for id in small_identifiers(3, kw_rules) {
+                    let mut items = vec![MV::Kw(id.clone())];
+                    if name_ok(&id, rules) {
+                        items.push(MV::Sym(id.clone()));
+                    }
+                    let v = MV::list(items);
+                    if in_domain(&p, &q, &v) {
+                        ctx.observe("small-identifiers", check_case(pi, q.index(), &v));
+                    }
+                }
+                ctx.flush_failures();
+            }
             // generated values: the strategy picks Q and then a value for (P,Q)
             let qs2 = qs.clone();
             let depth = tier.pick((4, 40), (6, 80));
